@@ -109,9 +109,32 @@ impl NsReader {
     pub fn resolve_attribute(&self, key: AttrKey) -> (r: (ResolveResult, LocalName)) ensures r.0 == key.spec@.ns, r.1@ == key.spec@.lname { unimplemented!() }
 }
 pub struct Name { pub t: Ghost<Seq<u8>> }
-impl Name {
+// &str contents as bytes; Arc<str> built from a &str (std From<&str> for Arc<str>: same contents)
+pub uninterp spec fn str_bytes(s: &str) -> Seq<u8>;
+pub struct ArcStr { pub v: Ghost<Seq<u8>> }
+pub trait IntoArcStr { fn into_arc_str(&self) -> (r: ArcStr); }
+impl IntoArcStr for str {
     #[verifier::external_body]
-    pub fn new(s: CowStr) -> (r: Name) ensures r.t@ == s.v@ { unimplemented!() }
+    fn into_arc_str(&self) -> (r: ArcStr) ensures r.v@ == str_bytes(self) { unimplemented!() }
+}
+// str::trim & co.: SOME function of the contents (uninterpreted), so that a name passed through one of them is not provably
+// the name of the configuration
+pub uninterp spec fn str_transformed(s: Seq<u8>, how: int) -> Seq<u8>;
+pub assume_specification [str::trim] (s: &str) -> (r: &str) ensures str_bytes(r) == str_transformed(str_bytes(s), 0);
+pub assume_specification [str::trim_start] (s: &str) -> (r: &str) ensures str_bytes(r) == str_transformed(str_bytes(s), 1);
+pub assume_specification [str::trim_end] (s: &str) -> (r: &str) ensures str_bytes(r) == str_transformed(str_bytes(s), 2);
+impl Name {
+    // the tuple constructor Name(Arc<str>)
+    #[verifier::external_body]
+    pub fn from_arc(a: ArcStr) -> (r: Name) ensures r.t@ == a.v@ { unimplemented!() }
+//@extract id=name_new file=junos-agent/src/policies/mod.rs impl=/^impl Name/ fn=new rules=R1 vis=pub
+//@+ sub=/Self(=>Name::from_arc(;;.into()=>.into_arc_str()/
+//@sig pub fn new(name: CowStr) -> (res: Name)
+//@contract
+        // C16: the policy name the agent uses is exactly the one in the configuration (C01: it is the key under which the
+        // statement is compared with what is installed, and the name written back to the router)
+        ensures res.t@ == name.v@,                                                            // OBL:C16+C01.name.statement_name_is_kept_verbatim
+//@end
 }
 
 //@item file=junos-agent/src/policies/mod.rs kind=struct name=Candidate sub=/pub(crate) =>pub ;filter_expr:=>pub filter_expr:/
@@ -312,7 +335,7 @@ pub fn anyhow_shim() -> (r: AnyhowErr) { unimplemented!() }
 impl CowStr {
     // Cow<str>::as_ref
     #[verifier::external_body]
-    pub fn as_ref(&self) -> (r: &str) { unimplemented!() }
+    pub fn as_ref(&self) -> (r: &str) ensures str_bytes(r) == self.v@ { unimplemented!() }
 }
 impl TermFrom {
     // TermFrom::try_into_ranges::<A>: parses the route-filters of the term into prefix ranges (generic-ip parsers: ASSUMED)
